@@ -1073,3 +1073,40 @@ Proof.
   split; [apply (build_wf ind ZL _ HZg Wtr)|]. split; [unfold xrender; rewrite text_node; symmetry; exact Ht|]. split; [symmetry; exact Hc|].
   split; [apply build_canon, HZg|]. split; [apply (build_sb ind ZL _ HZg true); right; reflexivity|apply (build_term ind ZL _ HZg Wtr)].
 Qed.
+
+(* ================================================================ every error-free document *)
+(* the missing clauses of C07 for the documents outside Grammar.v: the printed result parses
+   strictly, to a tree of the image with the reported content; its layout *)
+Theorem error_free_reread s t ind iel mll psort esort : from_str s = Ok t -> ind_pos ind ->
+  let R := d_out ind iel mll psort esort (children t) in
+  doc_ws fixed psort (Some (para_ws fixed ind iel mll esort None)) t = Ok R /\
+  exists D, xwf_doc D = true /\ xrender D = text R /\
+    lex (text R) = Ok (xdoc_toks D) /\ from_str (text R) = Ok (xtree_of D) /\ doc_items (xtree_of D) = doc_items R /\
+    xdoc_canon ind D = true /\ xsingle_blanks SepStart D = true /\ xdoc_terminated D = true.
+Proof.
+  intros Hs Hi R. pose proof (error_free_is_token_doc s t ind Hs Hi) as Ht.
+  destruct (parse_image_complete s t Hs) as (d & Wd & _ & Ed). subst t. cbn [xtree_of children token_doc] in *.
+  split; [apply doc_ws_tokens, Ht|].
+  destruct (xdoc_ws_reread ind iel mll psort esort d Hi Wd) as (D & WD & Etext & Econt & Hc & Hb & Hterm). fold R in Etext, Econt.
+  destruct (parse_image_accept D WD) as (A & B & _ & C).
+  exists D. rewrite <- Etext. repeat split; try assumption. rewrite C. exact Econt.
+Qed.
+
+(* all clauses together (with error_free_ws: the content, the second application) *)
+Theorem error_free_full s t ind iel mll psort esort : from_str s = Ok t -> ind_pos ind ->
+  esort_ok ind iel mll esort -> psort_ok ind iel mll psort esort ->
+  let W := doc_ws fixed psort (Some (para_ws fixed ind iel mll esort None)) in
+  let R := d_out ind iel mll psort esort (children t) in
+  W t = Ok R /\
+  doc_items t = map (fun g => items (snd g)) (fst (d_groups (children t) [])) /\
+  doc_items R = map (fun g => items (Node PARAGRAPH (p_out ind iel mll esort (children (snd g)))))
+                    (sort_opt (option_map on_snd psort) (fst (d_groups (children t) []))) /\
+  (exists D, xwf_doc D = true /\ xrender D = text R /\ from_str (text R) = Ok (xtree_of D) /\ doc_items (xtree_of D) = doc_items R /\
+     xdoc_canon ind D = true /\ xsingle_blanks SepStart D = true /\ xdoc_terminated D = true) /\
+  W R = Ok R.
+Proof.
+  intros Hs Hi Hes Hps W R. destruct (error_free_ws s t ind iel mll psort esort Hs Hi Hes Hps) as (A & B & C & D).
+  destruct (error_free_reread s t ind iel mll psort esort Hs Hi) as (_ & D0 & W0 & E0 & _ & F0 & G0 & H0 & I0 & J0).
+  split; [exact A|]. split; [exact B|]. split; [exact C|]. split; [|exact D].
+  exists D0. repeat split; assumption.
+Qed.
